@@ -19,6 +19,7 @@ import (
 	"fmt"
 	"net/http/httptest"
 	"reflect"
+	"runtime"
 	"strings"
 	"sync"
 	"sync/atomic"
@@ -74,6 +75,8 @@ type ordRow struct {
 	Inv       int        `json:"inversions"`
 	TrName    string     `json:"trname,omitempty"`
 	ParseErr  string     `json:"parseerr,omitempty"`
+	Pre       []int      `json:"pre,omitempty"`
+	Window    bool       `json:"window,omitempty"`
 	Ms        int64      `json:"ms"`
 }
 
@@ -84,7 +87,9 @@ type ordScenario struct {
 	atts           [][]int
 	seed           uint64
 	pingMs         int
-	paceUs         int // pause between two emits of one emitter (0 = none)
+	paceUs         int   // pause between two emits of one emitter (0 = none)
+	window         bool  // connrace: emitter 0 emits two events from inside the window between `Connected` and the flush (a buffered received event's handler holds emitBuffered there)
+	pre            []int // connrace: how many of its events emitter e emits before the CONNECT reply is released (-1: waits for Connected())
 }
 
 func ordTransports(t string) []string {
@@ -184,6 +189,7 @@ func (r *ordRecorder) onPacket(packets ...*eioparser.Packet) {
 		if p.Type != eioparser.PacketTypeMessage {
 			continue
 		}
+		rec := r.recording
 		if !r.recording {
 			if r.onFirst != nil {
 				r.onFirst(p.Data)
@@ -193,7 +199,6 @@ func (r *ordRecorder) onPacket(packets ...*eioparser.Packet) {
 			}
 		}
 		data := append([]byte(nil), p.Data...)
-		rec := r.recording
 		err := r.par.Add(data, func(h *parser.PacketHeader, ev string, dec parser.Decode) {
 			if !rec {
 				return
@@ -466,6 +471,164 @@ func ordWireRun(sc *ordScenario) (row ordRow) {
 	return
 }
 
+// ------------------------------------------------------------------ connect-race rig (wire level, client -> raw server)
+//
+// The second producer path into the connection's packet queue: packets emitted before the CONNECT
+// reply are parked in the socket's sendBuffer and flushed by emitBuffered when the reply arrives,
+// while other goroutines (the socket is `Connected` from that instant) emit directly.  The raw
+// Engine.IO server holds the CONNECT reply back until every emitter has parked its share; emitters
+// keep emitting without a pause across the reply (pre[e] >= 0) or spin on Connected() and then emit
+// (pre[e] = -1).  Everything the raw peer receives after the CONNECT packet is recorded.
+func ordConnRaceRun(sc *ordScenario) (row ordRow) {
+	t0 := time.Now()
+	row = ordRow{Mode: "connrace", Dir: "c2s", Transport: sc.transport, N: sc.n, Seed: sc.seed,
+		Bursts: sc.bursts, AttCounts: sc.atts, Pre: sc.pre, Window: sc.window}
+	defer func() { row.Ms = time.Since(t0).Milliseconds() }()
+	payloads := ordPayloads(sc)
+	for e := 0; e < sc.n; e++ {
+		var l []ordPkt
+		for s := 0; s < sc.bursts[e]; s++ {
+			p, err := ordEncode(e, s, payloads[e][s])
+			if err != nil {
+				row.EnvErr = "reference encode: " + err.Error()
+				return
+			}
+			l = append(l, p)
+		}
+		row.Progs = append(row.Progs, l)
+	}
+	rec := ordNewRecorder()
+	total := ordTotal(sc)
+	var rawSock eio.ServerSocket
+	gotConnect := make(chan struct{}, 1)
+	srv := eio.NewServer(func(s eio.ServerSocket) *eio.Callbacks {
+		rawSock = s
+		return &eio.Callbacks{OnPacket: rec.onPacket}
+	}, &eio.ServerConfig{PingInterval: 20 * time.Second, PingTimeout: 20 * time.Second, WebSocketAcceptOptions: ordWSAccept})
+	// the CONNECT packet is connection set-up, not an event: it starts the recording
+	rec.onFirst = func(data []byte) {
+		if len(data) > 0 && data[0] == '0' {
+			rec.recording = true // called with rec.mu held
+			select {
+			case gotConnect <- struct{}{}:
+			default:
+			}
+		}
+	}
+	if err := srv.Run(); err != nil {
+		row.EnvErr = "eio server run: " + err.Error()
+		return
+	}
+	ts := httptest.NewServer(srv)
+	defer ts.Close()
+	defer srv.Close()
+	cfg := &sio.ManagerConfig{NoReconnection: true}
+	cfg.EIO.Transports = ordTransports(sc.transport)
+	cfg.EIO.WebSocketDialOptions = ordWSDial
+	m := sio.NewManager(ts.URL, cfg)
+	sock := m.Socket("/", nil)
+	defer m.Close()
+
+	winOpen := make(chan struct{})
+	winDone := make(chan struct{})
+	if sc.window {
+		var once sync.Once
+		sock.OnEvent("ordx", func() {
+			once.Do(func() {
+				close(winOpen)
+				select {
+				case <-winDone:
+				case <-time.After(5 * time.Second):
+				}
+			})
+		})
+	}
+	var parked sync.WaitGroup
+	var wg sync.WaitGroup
+	for e := 0; e < sc.n; e++ {
+		wg.Add(1)
+		if sc.pre[e] >= 0 {
+			parked.Add(1)
+		}
+		go func(e int) {
+			defer wg.Done()
+			emit := func(s int) {
+				atts := payloads[e][s]
+				cp := make([][]byte, len(atts))
+				for i := range atts {
+					cp[i] = append([]byte(nil), atts[i]...)
+				}
+				sock.Emit("e", ordArgs(e, s, cp)...)
+			}
+			if sc.pre[e] < 0 {
+				end := time.Now().Add(20 * time.Second)
+				for !sock.Connected() && time.Now().Before(end) {
+					runtime.Gosched()
+				}
+				for s := 0; s < sc.bursts[e]; s++ {
+					emit(s)
+				}
+				return
+			}
+			for s := 0; s < sc.bursts[e]; s++ {
+				if s == sc.pre[e] {
+					parked.Done()
+					if sc.window && e == 0 {
+						select {
+						case <-winOpen:
+						case <-time.After(5 * time.Second):
+						}
+					}
+				}
+				if sc.window && e == 0 && s == sc.pre[e]+2 {
+					close(winDone)
+				}
+				emit(s)
+			}
+			if sc.pre[e] >= sc.bursts[e] {
+				parked.Done()
+			}
+		}(e)
+	}
+	sock.Connect()
+	select {
+	case <-gotConnect:
+	case <-time.After(10 * time.Second):
+		row.EnvErr = "no CONNECT packet from the client"
+		return
+	}
+	parked.Wait()
+	if sc.window {
+		// an event received BEFORE the CONNECT reply is buffered by the client and handed to its
+		// handler from inside emitBuffered, after `state = Connected` and before the parked packets are flushed
+		ev, _ := eioparser.NewPacket(eioparser.PacketTypeMessage, false, []byte(`2["ordx"]`))
+		rawSock.Send(ev)
+		time.Sleep(150 * time.Millisecond)
+	}
+	reply, _ := eioparser.NewPacket(eioparser.PacketTypeMessage, false, []byte(`0{"sid":"ordRawPeer0000000002"}`))
+	rawSock.Send(reply)
+	wg.Wait()
+	row.TrName = rawSock.TransportName()
+	row.Complete = ordWaitFor(func() bool { return int(atomic.LoadInt32(&rec.nfin)) >= total }, 20*time.Second)
+	time.Sleep(30 * time.Millisecond)
+	rec.mu.Lock()
+	rec.recording = false
+	row.Wire = rec.wire
+	row.Batches = rec.batches
+	row.Finished = rec.fin
+	row.ParseErr = rec.parseErr
+	rec.mu.Unlock()
+	// the CONNECT packet itself was recorded as the first frame (recording starts inside its
+	// callback, after the wire entry was skipped): nothing to strip
+	if row.Finished == nil {
+		row.Finished = []ordFin{}
+	}
+	if row.Wire == nil {
+		row.Wire = []ordWire{}
+	}
+	return
+}
+
 // ------------------------------------------------------------------ handler rig
 
 func ordHandlerFor(k int, record func(e, s int)) any {
@@ -617,6 +780,7 @@ func ordMain(args []string) error {
 	par := fs.Int("par", 4, "scenarios run in parallel")
 	emitters := fs.String("emitters", "", "fixed number of emitters (default: cycle 1,2,4,8,16,3)")
 	pace := fs.Int("pace", 0, "microseconds between two emits of one emitter")
+	window := fs.Bool("window", false, "connrace: emitter 0 emits from inside the window between Connected and the flush")
 	if err := fs.Parse(args); err != nil {
 		return err
 	}
@@ -652,6 +816,52 @@ func ordMain(args []string) error {
 			}
 			sc.atts = append(sc.atts, ks)
 		}
+		if *mode == "connrace" {
+			// c2s only; transports polling / websocket; half of the emitters park a share of their burst
+			// and keep emitting across the CONNECT reply, the others wait for Connected()
+			sc.dir = "c2s"
+			sc.window = *window
+			sc.transport = []string{"polling", "websocket"}[i%2]
+			if (i/2)%2 == 1 && !*window && sc.n >= 2 {
+				// flush-race shape: emitter 0 parks a long burst of events with 3..4 attachments,
+				// every other goroutine waits for Connected() and then emits plain events: their
+				// enqueues race with the flush of the parked packets
+				sc.bursts[0] = 2 * *maxBurst
+				sc.atts[0] = make([]int, sc.bursts[0])
+				for s := range sc.atts[0] {
+					sc.atts[0][s] = 3 + r.Intn(2)
+				}
+				sc.pre = append(sc.pre, sc.bursts[0])
+				for e := 1; e < sc.n; e++ {
+					if sc.bursts[e] > 25 {
+						sc.bursts[e] = 25
+						sc.atts[e] = sc.atts[e][:25]
+					}
+					for s := range sc.atts[e] {
+						sc.atts[e][s] = 0
+					}
+					sc.pre = append(sc.pre, -1)
+				}
+			}
+			for e := len(sc.pre); e < sc.n; e++ {
+				switch {
+				case e == 0 && *window:
+					for sc.bursts[0] < 6 {
+						sc.bursts[0] += 3
+						sc.atts[0] = append(sc.atts[0], 0, 1, 2)
+					}
+					sc.pre = append(sc.pre, 1+r.Intn(sc.bursts[0]-4))
+				case e == 0:
+					sc.pre = append(sc.pre, sc.bursts[e]/2+r.Intn(sc.bursts[e]/2+1)) // parks, then goes on
+				case e%3 == 1:
+					sc.pre = append(sc.pre, -1) // starts at Connected()
+				case e%3 == 2:
+					sc.pre = append(sc.pre, sc.bursts[e]) // everything parked
+				default:
+					sc.pre = append(sc.pre, r.Intn(sc.bursts[e]+1))
+				}
+			}
+		}
 		scs = append(scs, sc)
 	}
 	rows := make([]ordRow, len(scs))
@@ -666,6 +876,8 @@ func ordMain(args []string) error {
 			for attempt := 0; attempt < 3; attempt++ {
 				if *mode == "wire" {
 					rows[i] = ordWireRun(sc)
+				} else if *mode == "connrace" {
+					rows[i] = ordConnRaceRun(sc)
 				} else {
 					rows[i] = ordHandlerRun(sc)
 				}
